@@ -28,6 +28,7 @@ ASSUMPTIONS = ['float64 exactness domain: times on a 1/4 s grid (epoch 0 or 1.5e
 L24 = 5354228880          # lcm(1..24)
 STATUSES = ['nominal', 'warn', 'error', 'unknown', 'failure', 'unreachable', 'inactive', 'nominal2', 'warning',
             'Nominal', '', 'errors']
+DOC_VALID = ('nominal', 'warn', 'error')
 DT_CODE = {'float': 0, 'int': 1, 'str': 2, 'bool': 3, 'obj': 4}
 
 
@@ -461,8 +462,23 @@ def run_primitive(ctx, cases):
         case = dict(kind='primitive', **c)
         nontrivial = len(mclean) >= 2
         if len(t):
-            sd = remove_duplicates_and_invalid_values(SensorData('x', t + c['off'] / 4.0, v, s))
-            iclean = [(Fraction(float(a)), Fraction(float(b))) for a, b in zip(sd.timestamp, sd.value)]
+            try:
+                sd = remove_duplicates_and_invalid_values(SensorData('x', t + c['off'] / 4.0, v, s))
+                iclean = [(Fraction(float(a)), Fraction(float(b))) for a, b in zip(sd.timestamp, sd.value)]
+            except Exception as exc:
+                ctx.disagree('kind=primitive;what=clean_raises', case, repr(exc), [[str(a), str(b)] for a, b in mclean],
+                             'remove_duplicates_and_invalid_values raised')
+                continue
+            # the documented rule, written out here independently of the source-derived status table
+            last = {}
+            for (k, val, st) in c['samples']:
+                last[k] = (val, st)
+            doc = sorted((tval(e, k) + Fraction(c['off'], 4), Fraction(val)) for k, (val, st) in last.items()
+                         if not c['status'] or st[:7] in DOC_VALID)
+            if iclean != doc:
+                ctx.disagree('kind=primitive;what=clean_vs_documented;status=%s' % bool(c['status']), case,
+                             [[str(a), str(b)] for a, b in iclean], [[str(a), str(b)] for a, b in doc],
+                             'cleaned samples differ from the documented rule (last of equal times; nominal/warn/error)')
             if iclean != mclean or iclean != sclean:
                 ctx.disagree('kind=primitive;what=clean;status=%s' % bool(c['status']), case,
                              [[str(a), str(b)] for a, b in iclean], [[str(a), str(b)] for a, b in mclean],
@@ -785,6 +801,12 @@ def cross_check_in_coq(ctx):
                           [[wq(tval(e, k)), wq(v), codes(st)] for (k, v, st) in c['samples']],
                           [wq(tval(e, k)) for k in c['ts']]]])
     a = ctx.model(wire)
+    with core.BuildLock():     # the thorough tier rebuilt only Props/C12.vo; the dispatcher needs every Model file
+        targets = ' '.join(x[:-2] + '.vo' for x in core.coq_sources() if x.startswith(('Base/', 'Gen/', 'Model/')))
+        rc, out = core.make(targets, timeout=1200)
+    if rc:
+        ctx.extra['coq_vm_cross_checked'] = 'skipped: Model/*.vo do not all build (another property\'s model)'
+        return
     b = core.run_model_in_coq(wire, 'c12')
     if a != b:
         ctx.disagree('what=extraction_cross_check', dict(kind='extraction'), None, None,
